@@ -81,6 +81,11 @@ def aux_framer(name, kind="repeat1", ctxs=("enter", "exit", "recur")):
                   dict(name=x2, items=recs(x2, ctxs) + [("done", "enter", None), ("repeat", 1)]),
                   dict(name=x3, items=recs(x3, ctxs) + [("go", "me", [("recurred", ">=", 2, False)])])]
         return dict(name=name, schedule="aux", frames=frames)
+    if kind == "cycle":
+        # never done; alternates between two frames every second run (its transitions and counters are observable)
+        frames = [dict(name=x1, items=recs(x1, ctxs) + [("repeat", 1)], next=x2),
+                  dict(name=x2, items=recs(x2, ctxs) + [("repeat", 1)], next=x1)]
+        return dict(name=name, schedule="aux", frames=frames)
     if kind == "never":
         frames = [dict(name=x1, items=recs(x1, ctxs))]
     elif kind == "now":
@@ -241,6 +246,21 @@ def fam_plain_aux(quick=True):
         yield ("plainaux/doneverb/%s" % ctx, dict(tick=0.125, inits=list(ENV_INITS), framers=framers), dict())
 
 
+    # a HIERARCHICAL aux (wtop > {w1, w2}, inner transitions on e1, carrying a nested aux h) shared by three main frames
+    # visited in turn: every activation must enter top-down from its first frame, inner transitions must not re-enter
+    # wtop (h lives exactly as long as wtop), and every exit is bottom-up - on the 2nd, 3rd ... activation too
+    for hkind in ("repeat1", "never"):
+        for nmain in (2, 3):
+            w = dict(name="w", schedule="aux", frames=[
+                dict(name="wtop", items=recs("wtop", ctxs) + [("aux", "h")]),
+                dict(name="w1", over="wtop", items=recs("w1", ctxs) + [("go", "w2", [E1])]),
+                dict(name="w2", over="wtop", items=recs("w2", ctxs) + [("go", "w1", [E1])])])
+            mains = ["f%d" % i for i in range(nmain)]
+            frames = [dict(name=nm, items=recs(nm, ctxs) + [("aux", "w"), ("go", mains[(i + 1) % nmain], [E0])])
+                      for i, nm in enumerate(mains)]
+            yield ("plainaux/nested/%s/mains%d" % (hkind, nmain),
+                   dict(tick=0.125, inits=list(ENV_INITS),
+                        framers=[dict(name="m", schedule="active", frames=frames), w, aux_framer("h", hkind)]), dict())
     # hand-over: original aux x is HELD by the active frame a while a transition tries to enter p > q; the target is
     # enterable only if x sits on at most one of p, q (it is released by a's exit), whoever holds it at the time
     for xkind in ("repeat1", "never"):
@@ -620,6 +640,29 @@ def fam_restart():
             dict(name="f0", items=recs("f0", ctxs) + [("auxif", "a", [E0])]),
             dict(name="f1", over="f0", items=recs("f1", ctxs))])
         yield ("restart/condaux/depth%d" % depth, dict(tick=0.125, inits=list(ENV_INITS), framers=[m, caux]), dict())
+        # (5) scheduled framer y stopped / aborted by x WHILE its conditional auxiliary (on y1, clock condition) is running and
+        #     truncates the outline, then started again: the aux triggers again and must truncate again at y1
+        if depth == 3:
+            for how in ("stop", "abort"):
+                for kind in ("never", "repeat2"):
+                    yf = chain("y", depth)
+                    yf[1]["items"] = yf[1]["items"] + [("auxif", "a", [("recurred", ">=", 1, False)])]
+                    x5 = dict(name="x", schedule="active", frames=[
+                        dict(name="x0", items=recs("x0", ctxs) + [("go", "x1", [E0])]),
+                        dict(name="x1", items=recs("x1", ctxs) + [("bid", "enter", how, ["y"], None), ("go", "x2", [E1])]),
+                        dict(name="x2", items=recs("x2", ctxs) + [("bid", "enter", "start", ["y"], None), ("go", "x0", [E0])])])
+                    y = dict(name="y", schedule="active", frames=yf)
+                    yield ("restart/condaux-running/%s/%s" % (how, kind),
+                           dict(tick=0.125, inits=list(ENV_INITS), framers=[x5, y, aux_framer_ext("a", kind)]), dict())
+            # (6) the same as a plain auxiliary of m whose main frame is left and re-entered
+            for kind in ("never", "repeat2"):
+                af = chain("y", depth)
+                af[1]["items"] = af[1]["items"] + [("auxif", "a", [("recurred", ">=", 1, False)])]
+                m6 = dict(name="m", schedule="active", frames=[
+                    dict(name="f0", items=recs("f0", ctxs) + [("aux", "y"), ("go", "f1", [E0]), ("go", "me", [E1])]),
+                    dict(name="f1", items=recs("f1", ctxs) + [("go", "f0", [E1])])])
+                yield ("restart/aux-condaux-running/%s" % kind,
+                       dict(tick=0.125, inits=list(ENV_INITS), framers=[m6, dict(name="y", schedule="aux", frames=af), aux_framer_ext("a", kind)]), dict())
         # (4) slave with a nested outline stopped and started by fiats
         sl = dict(name="s", schedule="slave", frames=chain("s", depth))
         m = dict(name="m", schedule="active", frames=[
@@ -994,7 +1037,7 @@ def fam_cond_two_plain():
                         yield ("condaux2-plain/%s-%s/d%d-z%d-%s" % (kx, ky, d, zat, order),
                                dict(tick=0.125, inits=list(ENV_INITS),
                                     framers=[dict(name="m", schedule="active", frames=frames), aux_framer_ext("x", kx),
-                                             aux_framer_ext("y", ky), aux_framer("z", "never")]), dict())
+                                             aux_framer_ext("y", ky), aux_framer("z", "cycle")]), dict())
 
 
 def fam_clone_shapes():
